@@ -117,7 +117,7 @@ func c10Operations(p *Prog, f *ssa.Function) []*ssa.Function {
 	}
 	callers := map[*ssa.Function][]*ssa.Function{}
 	for g := range p.All {
-		if fnPkgPath(g) != fnPkgPath(f) || len(g.Blocks) == 0 || (g.Synthetic != "" && !strings.HasPrefix(g.Synthetic, "instance of")) {
+		if fnPkgPath(g) != fnPkgPath(f) || len(g.Blocks) == 0 || !c09IsSourceFn(g) {
 			continue
 		}
 		AllInstrs(g, func(in ssa.Instruction) {
@@ -170,7 +170,7 @@ func c10Operations(p *Prog, f *ssa.Function) []*ssa.Function {
 func c10R1(c *Ctx) {
 	const R1 = "C10.R1.fs-effect-inventory"
 	c.Expect(R1, 18)
-	fns := c.P.FuncsOfPkg(c08Pkg)
+	fns := c09FuncsOfPkg(c.P, c08Pkg)
 	if len(fns) == 0 {
 		c.LostAnchor(R1, "package ~/content/oci")
 		return
@@ -312,7 +312,7 @@ func c10R2(c *Ctx) {
 		return
 	}
 	n := 0
-	for _, f := range c.P.FuncsOfPkg(c08Pkg) {
+	for _, f := range c09FuncsOfPkg(c.P, c08Pkg) {
 		for _, call := range Calls(f, func(name string) bool { return c08InPlaceWriters[name] }) {
 			args := call.Common().Args
 			if len(args) == 0 {
@@ -667,7 +667,7 @@ func c10R3DeleteGC(c *Ctx, R3 string, r *c08Roles) {
 	var sites []site
 	// helpers that change the tag map and save it themselves before returning nil
 	clean := map[*ssa.Function]bool{}
-	for _, f := range c.P.FuncsOfPkg(c08Pkg) {
+	for _, f := range c09FuncsOfPkg(c.P, c08Pkg) {
 		if len(c08Mutations(f, r)) > 0 && !r.dirty[f] && !r.savers[f] {
 			clean[f] = true
 		}
@@ -702,7 +702,7 @@ func c10R3DeleteGC(c *Ctx, R3 string, r *c08Roles) {
 		}
 		return false
 	}
-	for _, f := range c.P.FuncsOfPkg(c08Pkg) {
+	for _, f := range c09FuncsOfPkg(c.P, c08Pkg) {
 		if ms, _ := mutationsOf(f); len(ms) == 0 {
 			continue
 		}
